@@ -171,7 +171,7 @@ CHECKS["C15"] = {
     "assumptions": ["the remote can complete the transport handshake (any key is accepted)", "the node under test is not a deputy"],
     "units": [
         {"name": "frames", "test": "TestC15Frames", "quick": {"checks": 250, "shards": 4, "timeout": 900}, "thorough": {"checks": 6000, "shards": 8, "timeout": 3400}},
-        {"name": "messages", "test": "TestC15Messages", "quick": {"checks": 150, "shards": 8, "timeout": 900}, "thorough": {"checks": 4000, "shards": 16, "timeout": 3400}},
+        {"name": "messages", "test": "TestC15Messages", "quick": {"checks": 150, "shards": 8, "timeout": 900}, "thorough": {"checks": 1800, "shards": 16, "timeout": 3400}},
         {"name": "flood", "test": "TestC15Flood", "quick": {"checks": 2, "shards": 3, "timeout": 900}, "thorough": {"checks": 10, "shards": 6, "timeout": 3400}},
         {"name": "churn", "test": "TestC15Churn", "quick": {"checks": 8, "shards": 2, "timeout": 900}, "thorough": {"checks": 100, "shards": 4, "timeout": 3400}},
         {"name": "fuzz", "fuzz": "FuzzFrameReader", "test": "FuzzFrameReader", "thorough": {"fuzztime": "180s", "workers": 16, "timeout": 600}},
